@@ -17,14 +17,20 @@ structure LoadSt where
 
 def u64max : BitVec 64 := 18446744073709551615#64
 
-/-- `translator->empty() ? (seekg(0,end), size_t(tellg())) : SIZE_MAX` -/
+/-- the first lines of `section_impl::load` / `segment_impl::load`:
+    `was_failed = stream.fail(); seekg(0,end); stream_size = size_t(tellg());`
+    `if (!translator->empty() && !was_failed && stream.fail()) stream.clear();`
+    The stream's real size is recorded with or without a translation table (translated offsets are
+    stream positions).  The `clear()` branch serves streams that cannot seek to their end
+    (/proc/<pid>/mem); for the stream kinds modelled here it is dead (`streamSizeOf_eq`, Lemmas/LoadSafety). -/
 def streamSizeOf (tr : List Trans) (st : IStream) : IStream × BitVec 64 :=
-  match tr with
-  | [] =>
-    let st := st.seekEnd
-    let (st, p) := st.tellg
-    (st, BitVec.ofInt 64 p)
-  | _ => (st, u64max)
+  let st1 := st.seekEnd
+  let (st2, p) := st1.tellg
+  let st3 := if sec64_load_unseekable tr.isEmpty st.fail st2.fail then st2.clear else st2
+  (st3, BitVec.ofInt 64 p)
+
+/-- `segment_impl::load` has the same guard as `section_impl::load` -/
+theorem seg64_load_unseekable_eq : seg64_load_unseekable = sec64_load_unseekable := rfl
 
 def isNullOrNobitsTy (t : BitVec 32) : Bool :=
   t == BitVec.ofNat 32 SHT_NULL || t == BitVec.ofNat 32 SHT_NOBITS
